@@ -22,6 +22,9 @@ def obligations(tier):
             if tier == "thorough":
                 n += 1
             obs.append(Ob(f"{spec_name((kind, name, kw))}/tf={tf}/n={n}", dict(spec=[kind, name, kw], fields=fields, tf=tf, n=n), CFG, weight=n * 3, budget_s=900, max_paths=100000))
+    # the Hexital's own timeframe coarser than a member's: the member's candle list is LONGER than the base list
+    for kind, name, kw, fields in (SPECS[1], SPECS[2], SPECS[9]):
+        obs.append(Ob(f"{spec_name((kind, name, kw))}/hexital-T4-member-T2/n=9", dict(spec=[kind, name, kw], fields=fields, tf="T2", n=9, hextf="T4"), CFG, weight=30, budget_s=900, max_paths=100000))
     # the same agreement at every point of a live history (open-bucket merges at constant length, lifespan trimming,
     # recalculation): an accessor that answers from remembered state goes stale exactly there
     for kind, name, kw, fields in SPECS[:4] + SPECS[7:8]:
@@ -101,8 +104,13 @@ def run(ctx, P):
     cs = mk_candles(ctx, n)
     extra = dict(timeframe=tf) if tf else {}
     ind = build_any(spec, **extra)
-    hx = Hexital("hx", clone(cs), [ind, build("EMA", dict(period=3))])
-    hx.calculate()
+    if P.get("hextf"):
+        hx = Hexital("hx", [], [ind, build("EMA", dict(period=3))], timeframe=P["hextf"])
+        for c in clone(cs):
+            hx.append(c)
+    else:
+        hx = Hexital("hx", clone(cs), [ind, build("EMA", dict(period=3))])
+        hx.calculate()
     name = ind.name
     cds = ind.candles
     N = len(cds)
